@@ -125,9 +125,14 @@ type nstr string
 type nbytes []byte
 
 func runPU(c puCase, r *pb.Rec) error {
-	s := string(c.S)
-	in := append(make([]byte, 0, len(c.S)+5), c.S...) // spare capacity: also the shape of buf[:0] for empty input
-	want, werr := strconv.ParseUint(s, c.Base, c.BitSize)
+	s := g.Window(string(c.S), len(c.S)+c.Base) // a window into a larger string: digits, letters, escapes as neighbours
+	in, intact := g.WindowBytes(c.S, len(c.S)+c.BitSize) // a window into a larger array (spare capacity behind it)
+	defer func() {
+		if e := intact(); e != nil {
+			panic(fmt.Sprintf("ParseUint(%q): %v", c.S, e))
+		}
+	}()
+	want, werr := strconv.ParseUint(string(c.S), c.Base, c.BitSize)
 	got, gerr := strz.ParseUint(s, c.Base, c.BitSize)
 	gotB, gerrB := strz.ParseUint(in, c.Base, c.BitSize)
 	if !bytes.Equal(in, c.S) {
@@ -241,8 +246,16 @@ func errText(e error) string {
 }
 
 func runEnc(c encCase, r *pb.Rec) error {
-	in := append(make([]byte, 0, len(c.S)+5), c.S...) // spare capacity: also the shape of buf[:0] for empty input
-	s := string(c.S)
+	in, intact := g.WindowBytes(c.S, len(c.S)+c.Enc) // a window into a larger array whose neighbours the caller owns
+	s := g.Window(string(c.S), len(c.S)+1)
+	// results handed out are looked at again after the caller has reused its input buffer for something else
+	type heldResult struct {
+		what string
+		got  func() string
+		want string
+	}
+	var held []heldResult
+	hold := func(what, want string, got func() string) { held = append(held, heldResult{what, got, want}) }
 	switch c.Op {
 	case "hexenc":
 		want := hex.EncodeToString(c.S)
@@ -252,6 +265,9 @@ func runEnc(c encCase, r *pb.Rec) error {
 		if g1, g2, g3, g4 := string(strz.HexEncode(nbytes(in))), string(strz.HexEncode(nstr(s))), strz.HexEncodeToString(nbytes(in)), strz.HexEncodeToString(nstr(s)); g1 != want || g2 != want || g3 != want || g4 != want {
 			return fmt.Errorf("HexEncode(%x) with defined string/[]byte types = %q/%q/%q/%q want %q", c.S, g1, g2, g3, g4, want)
 		}
+		h1, h2 := strz.HexEncode(in), strz.HexEncodeToString(in)
+		hold("HexEncode([]byte)", want, func() string { return string(h1) })
+		hold("HexEncodeToString([]byte)", want, func() string { return h2 })
 	case "hexdec":
 		dst := make([]byte, hex.DecodedLen(len(c.S)))
 		n, werr := hex.Decode(dst, c.S)
@@ -273,6 +289,8 @@ func runEnc(c encCase, r *pb.Rec) error {
 				return fmt.Errorf("HexDecode variant %d (%q) = %x, %v; encoding/hex: %x, %v", i, c.S, x.b, x.e, want, werr)
 			}
 		}
+		hold("HexDecode([]byte)", string(want), func() string { return string(g1) })
+		hold("HexDecodeToString([]byte)", string(want), func() string { return g3 })
 		r.ClassIf(werr != nil && len(c.S)%2 == 1, "odd length")
 		_, isInv := werr.(hex.InvalidByteError)
 		r.ClassIf(isInv && len(c.S)%2 == 1, "invalid byte in odd-length input")
@@ -294,6 +312,9 @@ func runEnc(c encCase, r *pb.Rec) error {
 		if g1, g2, g3, g4 := string(strz.Base64Encode(nbytes(in), enc)), string(strz.Base64Encode(nstr(s), enc)), strz.Base64EncodeToString(nbytes(in), enc), strz.Base64EncodeToString(nstr(s), enc); g1 != want || g2 != want || g3 != want || g4 != want {
 			return fmt.Errorf("Base64Encode(%x) with defined string/[]byte types = %q/%q/%q/%q want %q", c.S, g1, g2, g3, g4, want)
 		}
+		h1, h2 := strz.Base64Encode(in, enc), strz.Base64EncodeToString(in, enc)
+		hold("Base64Encode([]byte)", want, func() string { return string(h1) })
+		hold("Base64EncodeToString([]byte)", want, func() string { return h2 })
 	case "b64dec":
 		enc := b64encs[c.Enc]
 		want, werr := enc.DecodeString(s)
@@ -316,11 +337,24 @@ func runEnc(c encCase, r *pb.Rec) error {
 				return fmt.Errorf("Base64Decode variant %d enc %d (%q) = %x, %v; encoding/base64: %x, %v", i, c.Enc, c.S, x.b, x.e, want, werr)
 			}
 		}
+		hold("Base64Decode([]byte)", string(want), func() string { return string(g1) })
+		hold("Base64DecodeToString([]byte)", string(want), func() string { return g3 })
 		r.NonTrivialIf(werr != nil)
 		r.ClassIf(werr != nil, "base64 corrupt")
 	}
 	if !bytes.Equal(in, c.S) {
 		return fmt.Errorf("%s modified its input", c.Op)
+	}
+	if e := intact(); e != nil {
+		return fmt.Errorf("%s(%q): %v", c.Op, c.S, e)
+	}
+	for i := range in {
+		in[i] = 'Z' - byte(i%5) // the caller goes on using its buffer
+	}
+	for _, h := range held {
+		if got := h.got(); got != h.want {
+			return fmt.Errorf("%s of %q: the result changed to %q (was %q) when the caller reused its input buffer", h.what, c.S, got, h.want)
+		}
 	}
 	r.NonTrivialIf(len(c.S) > 2)
 	return nil
